@@ -20,6 +20,9 @@ Record case := {
   k_mslist : list (res (list ids));          (* list(MultiStream(sizes, a=stream).a) *)
   k_mszip : list (res (list ids));           (* second stream of zip(ms.a, ms.b, ms.lengths), a = reference data *)
   k_ct : list (res (Z * Z));                 (* get_contingency_table(ms.a, ms.b, ms.lengths): (#a only, #b only) *)
+  k_mslist_tab : list (res (list ids));      (* the same three with the data handed over as ONE TABLE IN MEMORY: list(ms.a), *)
+  k_mszip_tab : list (res (list ids));       (*   the data as first stream of the zip run to its end (in k_mslist_tab), as second stream, *)
+  k_ct_tab : list (res (Z * Z));             (*   and the contingency table / forbes / jaccard with the table as second argument *)
   k_lj : list (res (list (bname * Z * option ids)))   (* list(left_join(sizes.items(), groupby(stream))) *)
 }.
 
@@ -68,6 +71,9 @@ Definition spec_ok (c : case) : bool :=
     all_ok (meets zll_eqb exp) (k_mslist c)
     && all_ok (meets zll_eqb exp) (k_mszip c)
     && all_ok (meets zz_eqb (option_map (fun a => (len (k_genome c), len (concat a))) exp)) (k_ct c)
+    && all_ok (meets zll_eqb exp) (k_mslist_tab c)
+    && all_ok (meets zll_eqb exp) (k_mszip_tab c)
+    && all_ok (meets zz_eqb (option_map (fun a => (len (k_genome c), len (concat a))) exp)) (k_ct_tab c)
   else
     let D := map (fun g => (fst g, Some (snd g))) (k_groups c) in
     let exp := spec_sync bname zlist_eqb (option ids) None (k_genome c) [] D in
@@ -82,15 +88,22 @@ Definition model_ok (c : case) : bool :=
     && all_ok (res_eqb zlist_eqb (api_flat t)) (k_flat c)
     && all_ok (res_eqb Z.eqb (api_sum t)) (k_sum c)
     && none_expected (k_mslist c) && none_expected (k_mszip c) && none_expected (k_ct c) && none_expected (k_lj c)
+    && none_expected (k_mslist_tab c) && none_expected (k_mszip_tab c) && none_expected (k_ct_tab c)
   else if k_route c =? 1 then
-    let t := synched_head (k_genome c) (grouped bname zlist_eqb (k_chunks c)) in
+    let t := multistream_trace (k_genome c) (k_chunks c) in
     let zipb := pull_n (length (k_genome c)) t in
+    let tt := multistream_table_trace (k_genome c) (k_chunks c) in
+    let zipt := pull_n (length (k_genome c)) tt in
     all_ok (res_eqb zll_eqb (pull_all t)) (k_mslist c)
     && all_ok (res_eqb zll_eqb zipb) (k_mszip c)
     && all_ok (res_eqb zz_eqb (res_map (fun a => (len (k_genome c), len (concat a))) zipb)) (k_ct c)
     && none_expected (k_rows c) && none_expected (k_flat c) && none_expected (k_sum c) && none_expected (k_lj c)
+    && all_ok (res_eqb zll_eqb (pull_all tt)) (k_mslist_tab c)
+    && all_ok (res_eqb zll_eqb zipt) (k_mszip_tab c)
+    && all_ok (res_eqb zz_eqb (res_map (fun a => (len (k_genome c), len (concat a))) zipt)) (k_ct_tab c)
   else
     let t := left_join bname zlist_eqb Z ids (sizes_of (k_genome c)) (grouped bname zlist_eqb (k_chunks c)) in
     all_ok (res_eqb lj_eqb (pull_all t)) (k_lj c)
     && none_expected (k_rows c) && none_expected (k_flat c) && none_expected (k_sum c)
-    && none_expected (k_mslist c) && none_expected (k_mszip c) && none_expected (k_ct c).
+    && none_expected (k_mslist c) && none_expected (k_mszip c) && none_expected (k_ct c)
+    && none_expected (k_mslist_tab c) && none_expected (k_mszip_tab c) && none_expected (k_ct_tab c).
